@@ -151,6 +151,21 @@ func (g *vStoreWorld) step(a map[string]interface{}) (out map[string]interface{}
 		} else {
 			out["readback"] = -1
 		}
+		// the same round trip under names as they reach the store from the administrator's form and the register
+		// endpoints (mixed case, dots, dashes, plus signs): the store keeps whatever name it is given
+		for _, name := range []string{"Ext-" + strings.ToUpper(u[:1]) + u[1:], "svc-" + u + ".Deploy", u + "+Tag"} {
+			vMust(st.SaveUserProfile(name, g.profile(u, v)))
+			p2, ok2, fc2, err2 := st.LoadUserProfile(name)
+			if err2 != nil || !ok2 || fc2 || vVersionOf(vGobOf(p2)) != v {
+				out["readback"] = -3
+				out["note"] = "name " + name
+			}
+			vMust(st.DeleteUserProfile(name))
+			if _, still, _, _ := st.LoadUserProfile(name); still {
+				out["readback"] = -4
+				out["note"] = "name " + name + " not deleted"
+			}
+		}
 	case "delete":
 		vMust(st.DeleteUserProfile(u))
 		_, ok, _, _ := st.LoadUserProfile(u)
@@ -210,13 +225,18 @@ func (g *vStoreWorld) step(a map[string]interface{}) (out map[string]interface{}
 		cleanupDBData(st.cacheDB)
 	case "outage":
 		g.prim.mu.Lock()
-		g.prim.delayQ = 250 * time.Millisecond
+		if vStr(a, "mode") == "refuse" {
+			g.prim.refuse = true // the primary is down and says so at once (a stopped server) instead of hanging
+		} else {
+			g.prim.delayQ = 250 * time.Millisecond
+		}
 		g.prim.mu.Unlock()
 		st.remoteDBQueryTimeout = 40 * time.Millisecond
 	case "recover":
 		time.Sleep(300 * time.Millisecond) // let delayed readers drain
 		g.prim.mu.Lock()
 		g.prim.delayQ = 0
+		g.prim.refuse = false
 		g.prim.mu.Unlock()
 		st.remoteDBQueryTimeout = 2 * time.Second
 	case "mutate_offline":
